@@ -45,7 +45,7 @@ PROPS = {
 }
 PROBES = {'C07': ['corner_2_axes', 'corner_3_axes', 'both_low_and_high_layer', 'on_face', 'ulp_off_face', 'wrapped_particle',
                   'wrap_nearly_full_period', 'update_without_motion', 'empty_array', 'second_array_mirror', 'props_subset',
-                  'mixed_periodic_mirror', 'band_particle', 'band_particle_with_edge_images', 'remote_tagged_particles', 'variable_h', 'interacting_image_checked',
+                  'mixed_periodic_mirror', 'band_particle', 'band_particle_with_edge_images', 'remote_tagged_particles', 'ghosts_of_an_earlier_manager_present', 'moved_through_add_property', 'variable_h', 'interacting_image_checked',
                   'particles_added_between_updates', 'particles_removed_between_updates', 'property_added_between_updates']}
 
 NEWPROPS = {'ni': ('int', 1), 'nl': ('long', 1), 'nd': ('double', 1), 'nu': ('unsigned int', 1), 'ns': ('double', 3)}
@@ -147,7 +147,7 @@ def gen(t, prop, tier):
         for _ in range(t.int(1, 10)):
             mv.append([t.int(0, narr - 1), t.int(0, 60), t.wchoice([('small', 5), ('big', 2), ('toface', 2), ('set', 2)]),
                        t.unit() - 0.5, t.unit() - 0.5, t.unit() - 0.5])
-        rd = dict(moves=mv, vel=int(t.bool(0.3)), hchg=int(t.bool(0.15) and hvar))
+        rd = dict(moves=mv, vel=int(t.bool(0.3)), hchg=int(t.bool(0.15) and hvar), via_add_property=int(t.bool(0.15)))
         if t.bool(0.3):
             rd['add'] = [t.int(0, narr - 1), [particle() for _ in range(t.int(1, 6))]]
         if t.bool(0.15):
@@ -155,13 +155,14 @@ def gen(t, prop, tier):
         if t.bool(0.2):
             rd['addprop'] = [t.int(0, narr - 1), t.choice(['ni', 'nl', 'nd', 'nu', 'ns'])]
         rounds.append(rd)
+    earlier = int(t.bool(0.15))
     if t.bool(0.2):
         # some particles are Remote-tagged copies (what a parallel run holds): the domain manager treats them like real ones
         for a in arrays:
             for r in a['pts']:
                 r.append(int(t.bool(0.3)))
     return dict(dim=dim, box=box, periodic=[int(k == 'p') for k in kinds], mirror=[int(k == 'm') for k in kinds],
-                n_layers=n_layers, radius_scale=rs, props=props, arrays=arrays, rounds=rounds, hmax=hmax)
+                n_layers=n_layers, radius_scale=rs, props=props, arrays=arrays, rounds=rounds, hmax=hmax, earlier_manager=earlier)
 
 
 def sig_of(sc):
@@ -568,6 +569,18 @@ def execute(sc, prop):
                 probe('interacting_image_checked', nchk)
 
     try:
+        if sc.get('earlier_manager'):
+            # another domain manager (of a solver that ran before, say) has already worked on these arrays and left its
+            # ghosts behind; the manager under test must start from them
+            dm0 = DomainManager(xmin=box[0], xmax=box[1], ymin=box[2], ymax=box[3], zmin=box[4], zmax=box[5],
+                                periodic_in_x=per[0], periodic_in_y=per[1], periodic_in_z=per[2],
+                                mirror_in_x=mir[0], mirror_in_y=mir[1], mirror_in_z=mir[2], n_layers=n_layers)
+            LinkedListNNPS(dim=dim, particles=particles, domain=dm0, radius_scale=rs)
+            if any((pa.get('tag', only_real_particles=False) == 2).any() for pa in particles if pa.get_number_of_particles()):
+                probe('ghosts_of_an_earlier_manager_present')
+            before = [reals_of(pa) for pa in particles]
+            stale_hmax[0] = max([float(pa.get('h', only_real_particles=False).max()) for pa in particles
+                                 if pa.get_number_of_particles()] or [0.0])
         nnps = LinkedListNNPS(dim=dim, particles=particles, domain=dm, radius_scale=rs)
     except Exception as e:
         import traceback
@@ -617,6 +630,13 @@ def execute(sc, prop):
             if rd.get('vel'):
                 pa.get('u', only_real_particles=False)[i] = a * 4
                 pa.get('q', only_real_particles=False)[i] = b
+        if rd.get('via_add_property') and moves:
+            # the new coordinates are handed over with add_property(name, data=...) on the existing property
+            for pa in particles:
+                if pa.get_number_of_particles():
+                    for cname in 'xyz'[:dim]:
+                        pa.add_property(cname, data=pa.get(cname, only_real_particles=False).copy())
+            probe('moved_through_add_property')
         ad = rd.get('add')
         if isinstance(ad, list) and len(ad) == 2 and isinstance(ad[1], list):
             ai = int(ad[0]) % narr
